@@ -51,8 +51,30 @@ def run_case(ctx, case):
         ctx.judge(False, case, mech="C09:incoherent-result", got=str(ex))
 
 
+MARKUP_STRS = ["\x1b[31mhi", "a\x1b[2Jb", "\x1b[31m", "x\x1b[0m"]
+
+
+def run_markup(ctx, case):
+    """a plain str that happens to hold an escape sequence: its characters are text like any other
+    (that is what + does with it); judged on the result's text and length only - the display of
+    a string holding ESC is outside what the cell observer models"""
+    spec, new, s = case["spec"], case["new"], case["start"]
+    f = obs.build(spec)
+    text = "".join(t for t, _ in spec)
+    want = text[:s] + new + text[s:] if case.get("op") != "append" else text + new
+    try:
+        r = f.append(new) if case.get("op") == "append" else f.splice(new, s)
+        got = [r.s, len(r)]
+    except Exception as ex:  # noqa
+        got = repr(ex)
+    ctx.judge(got == [want, len(want)], case, ("C09", "markup", repr(case)), "C09:plain-str-parsed-as-markup",
+              [want, len(want)], got, "f + new gives %r" % ((f + new).s,))
+
+
 def _run_case(ctx, case):
     from curtsies.formatstring import FmtStr
+    if case.get("kind") == "markup":
+        return run_markup(ctx, case)
     if case.get("twin_first"):
         _run_case(ctx, dict(case, spec=case["twin_first"], twin_first=None))
     spec, new = case["spec"], case["new"]
@@ -123,6 +145,12 @@ def run(ctx):
                         ctx.count("splices")
     ctx.exhaustive = True
     rng = ctx.rng
+    if ctx.shard[0] == 0:
+        for new in MARKUP_STRS:
+            for spec in ([["ab", {"fg": 31}], ["cd", {}]], [["xyz", {"bold": True}]]):
+                run_case(ctx, {"kind": "markup", "spec": spec, "new": new, "start": 1})
+                run_case(ctx, {"kind": "markup", "op": "append", "spec": spec, "new": new, "start": 0})
+                ctx.count("plain_str_with_escape_sequences")
     for _ in range(ctx.share(4000 if quick else 800000)):
         spec = obs.rand_spec(rng, 6, 4, "abcdef一\n", palette=obs.PALETTE)
         L = sum(len(t) for t, _ in spec)
